@@ -896,6 +896,14 @@ for _text_limit in ("maxstring", "maxother"):
                 # (A constructor might be re-used as-is in an unrelated class, ``__init__ = Contracted.__init__``.
 """),
     ],
+    "mutants/c14_fix_borrowed_deferring_copy_reverted": [
+        (CHK, """        if not isinstance(args[0], cls):
+            # The copy has been re-used as-is in an unrelated class (``__eq__ = Contracted.__eq__``): there is no class
+            # to defer to, and what has been re-used is the default itself.
+            return default(*args, **kwargs)
+
+""", ""),
+    ],
     "seeded/C04_r3_async_pre_returns_at_first_failed_group": [
         (CHK, """            if not_check(check=check, contract=contract):
                 violated = contract
